@@ -558,6 +558,7 @@ def _gen_nested_svg(draw, cx, depth, hook):
 def _gen_group(draw, cx, depth, hook):
     g = node("g")
     micro = cx.cfg.micro and cx.cfg.transforms and not cx.cfg.stroke and depth <= 2 and not getattr(cx, "in_micro", False) and draw(st.integers(0, 24)) == 0  # no strokes: a dash pattern in normal units over a path in huge units means millions of dashes
+    magnify = (not micro) and cx.cfg.stroke and cx.cfg.transforms and depth <= 2 and not getattr(cx, "in_micro", False) and draw(st.integers(0, 11)) == 0
     saved_box = cx.box
     if micro:
         # artwork in huge units scaled down hard (invertible, |det| ~ 1e-9 and below)
@@ -567,6 +568,15 @@ def _gen_group(draw, cx, depth, hook):
         cx.feat.add("micro-scale")
         cx.feat.add("transform")
         cx.in_micro = True  # never nested: picosvg treats |det| <= float epsilon as degenerate by definition
+    elif magnify:
+        # artwork drawn small and magnified (the opposite of the micro-scale group): local stroke widths and dash
+        # lengths are far below one root unit although the painted stroke is several units wide
+        K = draw(st.sampled_from([50, 100]))
+        g["a"]["transform"] = f"scale({K})"
+        cx.box = Box(cx.box.x / K, cx.box.y / K, cx.box.w / K, cx.box.h / K)
+        cx.feat.add("magnified-group")
+        cx.feat.add("transform")
+        cx.in_micro = True  # not nested, content not reused outside
     else:
         _maybe_transform(draw, cx, g, p=1)
     _maybe_display(draw, cx, g)
@@ -591,7 +601,7 @@ def _gen_group(draw, cx, depth, hook):
         g["_id_after"] = gid
     cx.feat.add(f"group-depth{min(depth, 4)}")
     cx.box = saved_box
-    if micro:
+    if micro or magnify:
         cx.in_micro = False
     return g
 
@@ -991,7 +1001,8 @@ def _spell(draw, text):
 def _stroke_props(draw, cx, allow_dash=True):
     ext = cx.box.ext
     w = draw(st.sampled_from([0.03, 0.05, 0.08, 0.12, 0.2])) * ext
-    w = max(round(w, 2), 2.0)
+    small = ext < 20  # inside a magnified group: local units are tiny
+    w = round(w, 4) if small else max(round(w, 2), 2.0)
     if draw(st.integers(0, 14)) == 0:
         w = 0  # a zero-width stroke paints nothing
         cx.feat.add("stroke-width-0")
@@ -1007,17 +1018,17 @@ def _stroke_props(draw, cx, allow_dash=True):
         props["stroke-miterlimit"] = draw(st.sampled_from(["1", "2", "4", "10", "1.5"]))
     if allow_dash and draw(st.integers(0, 2)) == 0:
         n = draw(st.sampled_from([1, 2, 2, 3, 4]))
-        vals = [fmt(round(draw(st.sampled_from([0.04, 0.08, 0.15, 0.3])) * ext, 1)) for _ in range(n)]
+        vals = [fmt(round(draw(st.sampled_from([0.04, 0.08, 0.15, 0.3])) * ext, 3 if small else 1)) for _ in range(n)]
         if draw(st.integers(0, 4)) == 0:
             # dotted-line idiom: zero-length dashes (dots appear only with round/square caps) and wide gaps
-            vals = ["0", fmt(round(draw(st.sampled_from([0.3, 0.45])) * ext, 1))] + (vals[:2] if draw(st.booleans()) and len(vals) >= 2 else [])
+            vals = ["0", fmt(round(draw(st.sampled_from([0.3, 0.45])) * ext, 3 if small else 1))] + (vals[:2] if draw(st.booleans()) and len(vals) >= 2 else [])
             cx.feat.add("dash-with-zero-entry")
         spelled = [_spell(draw, v) for v in vals]
         if spelled != vals:
             cx.feat.add("dash-number-spelling")
         props["stroke-dasharray"] = draw(st.sampled_from([" ", ",", ", "])).join(spelled)
         if draw(st.booleans()):
-            props["stroke-dashoffset"] = _spell(draw, fmt(round(draw(st.sampled_from([-0.3, -0.05, 0.07, 0.2, 0.9, 2.5])) * ext, 1)))
+            props["stroke-dashoffset"] = _spell(draw, fmt(round(draw(st.sampled_from([-0.3, -0.05, 0.07, 0.2, 0.9, 2.5])) * ext, 3 if small else 1)))
     elif allow_dash and draw(st.integers(0, 5)) == 0:
         props["stroke-dasharray"] = "none"  # explicit reset of an inherited dash pattern
         cx.feat.add("dasharray-none")
